@@ -5,7 +5,38 @@ import os
 
 HERE = os.path.dirname(os.path.dirname(os.path.abspath(__file__)))
 
+def _expl(technique, text, note, design):
+    return dict(category="exploration", technique=technique, text=text, note=note, design=design)
+
+
 CHECKS = {
+    "C01": _expl("boundary monitor on expected_data* vs naive per-cell reference model (runtime monitoring)",
+                 "Every observed expected_actualdata/expected_data/by-sample call over generated specs, points in every interpolation regime, interpcode/clip/batch settings and all four backends is compared cell by cell with a loop-based reference built from the raw spec and the reported layout; plus locality and by-sample-sum witnesses.",
+                 "Float64 reference; interpolation formula taken from pyhf's scalar interpolator (C03 decides it); generator bounds (<=4 channels, <=5 bins).", "§3 C01"),
+    "C02": _expl("boundary monitor on logpdf/pdf/mainlogpdf/constraint_logpdf/expected_auxdata vs term-by-term reference density",
+                 "Each observed density call is compared with the sum of Poisson main terms (at pyhf's own rates) and one reference constraint term per component built from the raw spec and overrides, with independently perturbed, pairwise distinct auxiliary data; aux-pairing witness moves one datum at a time.",
+                 "Cancellation-aware tolerance 1e-10*sum|terms|; degenerate constraint components judged by differences only.", "§3 C02"),
+    "C03": _expl("boundary monitor on interpolators (fast, slow, all backends) vs independently solved reference; continuity/C1/C2 witnesses; call-shape histories",
+                 "All five codes (and alpha0 != 1 for code 4) are evaluated on random triples and alpha grids including nextafter ladders around every breakpoint and compared with reference formulae whose polynomial coefficients are solved from the boundary conditions; one-sided finite differences of pyhf's own output check smoothness; call-shape histories are compared with fresh instances.",
+                 "Reference self-checked in every run; 64-bit only; tolerance 1e-9 x magnitude of terms.", "§3 C03"),
+    "C04": _expl("boundary monitor on tensorlib probability primitives vs mpmath (50 digits) with an error budget in roundings of the terms",
+                 "Poisson log-mass/mass, Normal log-density/density, Normal CDF and the distribution objects are evaluated on directed argument tuples (zeros, subnormals, 1e8, 20 decades of sigma, +-38 sigma) on 4 backends x 2 precisions and judged against mpmath on the inputs as rounded.",
+                 "K=16 roundings of the terms; absolute floor 16*min_normal; known finding: subnormal rates on XLA/TF.", "§3 C04"),
+    "C06": _expl("postcondition monitor on the five test statistics, re-derived at the returned fitted parameters; closed forms",
+                 "Each statistic call returns its fitted parameter vectors; the monitor recomputes 2NLL at them through the model and checks non-negativity, the max(0, difference) identity, the one-sided zeroing rules, the POI pinning, the closed form for counting models and q(muhat)=0.",
+                 "Fits reporting failure are skipped; tolerances tied to measured SLSQP noise.", "§3 C06"),
+    "C07": _expl("scripted (q, q_A) injection into the real AsymptoticCalculator + hypotest, judged against mpmath formulae",
+                 "get_test_stat / generate_asimov_data are rebound to stubs so the real transform, distributions, p-value and hypotest tuple code is driven over the whole (q, q_A) plane including the q=q_A seam and the 37-sigma boundary, on every backend and both base distributions; ordering invariants are checked reference-free.",
+                 "Only tails below 37 sigma are judged; mpmath erfc trusted.", "§3 C07"),
+    "C10": _expl("paired-execution monitor: batched model vs the unbatched model row by row",
+                 "N pairwise-distinct parameter vectors and datasets go through Model(spec, batch_size=N) and through the unbatched model; every row of expected data, by-sample rates, log-densities and the sampled-data shape must agree.",
+                 "Oracle is the unbatched model itself; N<=8.", "§3 C10"),
+    "C12": _expl("icontract postcondition on Model.__init__ + monitors on Workspace.data/build/model; permutation and mutation witnesses",
+                 "Pure structural predicates over the public configuration (slices tile the parameter vector, one entry per component, channel slices tile the data, aux layout), overrides verbatim/defaults otherwise, Workspace.data layout, Workspace.build round trip, caller's dict untouched, invariance under permutations of every list.",
+                 "Structural predicates exact; likelihood comparisons 1e-9.", "§3 C12"),
+    "C20": dict(category="fault_enumeration", technique="outcome classifier on Model(spec) under structural fault injection at every applicable position (runtime monitoring)",
+                text="Every fault class of the statement is injected at every applicable position of each generated parent spec (plus pairs, including compensating pairs); the only acceptable outcome is a pyhf.exceptions class; the unfaulted parent must be accepted.",
+                note="Exhaustive over positions within each parent, sampled over parents; schema-invalid faulted specs skipped.", design="§3 C20"),
     "C17": dict(
         category="fault_enumeration",
         technique="runtime monitor on PatchSet API + exhaustive single-leaf fault injection per document",
